@@ -7,13 +7,33 @@ from .effects import slot_call
 from .util import backward_slice, const_int
 
 
-def _known_negative(f, value, block):
+def _facts_imply_negative(facts):
+    """facts: (icmp predicate against 0, outcome) about one value"""
+    neg = nonpos = nonzero = False
+    for pred, outcome in facts:
+        if (pred == "slt" and outcome) or (pred == "sge" and not outcome):
+            neg = True
+        if (pred == "sle" and outcome) or (pred == "sgt" and not outcome):
+            nonpos = True
+        if (pred == "ne" and outcome) or (pred == "eq" and not outcome):
+            nonzero = True
+    return neg or (nonpos and nonzero)
+
+
+def _zero_test(cond, value):
+    if cond.is_inst and cond.op == "icmp" and strip_casts(cond.ops[0]) is value and cond.ops[1].is_const and \
+            cond.ops[1].is_int and cond.ops[1].sval == 0:
+        return cond.pred
+    return None
+
+
+def _known_negative(f, value, block, extra=()):
+    facts = list(extra)
     for cond, outcome, br in f.guards_at(block):
-        if cond.is_inst and cond.op == "icmp" and strip_casts(cond.ops[0]) is value and cond.ops[1].is_const and \
-                cond.ops[1].is_int and cond.ops[1].sval == 0:
-            if (cond.pred == "slt" and outcome is True) or (cond.pred == "sge" and outcome is False):
-                return True
-    return False
+        p = _zero_test(cond, value)
+        if p:
+            facts.append((p, outcome))
+    return _facts_imply_negative(facts)
 
 
 def t1_rule(chk, prog, unit_prefix="lib/tar/src/"):
@@ -29,12 +49,12 @@ def t1_rule(chk, prog, unit_prefix="lib/tar/src/"):
             inst = "%s:get_buffered_data@%d" % (f.name, n)
             bad = None
             # forward through phis
-            seen, stack = set(), [c]
+            seen, stack = set(), [(c, ())]
             while stack and bad is None:
-                v = stack.pop()
-                if id(v) in seen:
+                v, extra = stack.pop()
+                if (id(v), extra) in seen:
                     continue
-                seen.add(id(v))
+                seen.add((id(v), extra))
                 for u in f.uses.get(v, []):
                     if u.op in ("icmp",):
                         continue
@@ -42,14 +62,20 @@ def t1_rule(chk, prog, unit_prefix="lib/tar/src/"):
                         # a phi merges: judge at the incoming edge
                         if u.op == "phi":
                             for val, pred in zip(u.ops, u.x["inc"]):
-                                if val is v and not _known_negative(f, c, pred):
+                                if val is v and not _known_negative(f, c, pred, extra):
                                     # positive may flow on: follow the phi's uses
-                                    stack.append(u)
+                                    stack.append((u, extra))
+                        elif u.op == "select":
+                            # `ret > 0 ? X : ret`: the arm that carries the result is taken under the test's outcome
+                            p = _zero_test(u.ops[0], c)
+                            for k in (1, 2):
+                                if u.ops[k] is v:
+                                    stack.append((u, extra + (((p, k == 1),) if p else ())))
                         else:
-                            stack.append(u)
+                            stack.append((u, extra))
                         continue
                     if u.op in ("ret", "store", "call"):
-                        if not _known_negative(f, c, u.bb):
+                        if not _known_negative(f, c, u.bb, extra):
                             bad = u
             if bad is None:
                 chk.ok("T1-eof", inst, c, "the inner stream's result is only propagated where it is negative; end of input "
